@@ -23,7 +23,9 @@ RULE = ("messages over the JSON-native domain (boundary integers/floats, control
         "add_destinations + the logging API. Oracle: the op tape is (write flush)* after the zero-length mode probe, one pair per "
         "message; each write is one newline-terminated line without inner newline, valid UTF-8, decoded by the stdlib json module "
         "to an object equal to the message (strict types, -0.0 sign, exact 64-bit integers; rich types in their documented encoding); "
-        "binary bytes == UTF-8 of the text variant. non-trivial = message with an escape-requiring string, a boundary number or "
+        "binary bytes == UTF-8 of the text variant. part 'faultyfile': the file's write()/flush() raise on selected calls (BlockingIOError, "
+        "InterruptedError, ENOSPC, closed file): still exactly one write of each offered message's line (none duplicated by a retry), "
+        "only the file's own exception may come out, later messages are written normally. non-trivial = message with an escape-requiring string, a boundary number or "
         "nesting >=3; distinct by hash of the message")
 ASSUMPTIONS = ["value domain bounded by orjson's own limits (64-bit integers, nesting < 254, valid Unicode)"]
 BATCH = 500
@@ -69,7 +71,10 @@ DEFAULTS = {"default": json_default, "a": default_a, "b": default_b, "c": defaul
 
 def plan(tier, seed):
     n = 100000 if tier == "quick" else 1000000
-    return [{"seed": seed, "lo": i, "hi": min(n, i + BATCH), "tier": tier} for i in range(0, n, BATCH)]
+    specs = [{"seed": seed, "lo": i, "hi": min(n, i + BATCH), "tier": tier} for i in range(0, n, BATCH)]
+    nf = 2000 if tier == "quick" else 20000
+    specs += [{"part": "faultyfile", "seed": seed, "lo": i, "hi": min(nf, i + 100), "tier": tier} for i in range(0, nf, 100)]
+    return specs
 
 
 def gen_rich(rng, which):
@@ -322,8 +327,89 @@ def one(seed, i, tier, res, pool):
         res["violations"].append({"msg": problems[0], "mech": None, "detail": {"case": i, "problems": problems[:8], "message": message}})
 
 
+class FaultyFile(RecordingFile):
+    """A buffered file whose write()/flush() raise on selected calls (a full pipe in non-blocking mode, an interrupted call, a
+    full disk). As with io.BufferedWriter, a write that was accepted stays in the buffer when a later flush fails."""
+
+    def __init__(self, mode, faults_):
+        RecordingFile.__init__(self, mode)
+        self.faults = faults_  # {(op, call index): exception factory}
+        self.calls = {"write": 0, "flush": 0}
+        self.raised = []
+
+    def _maybe(self, op):
+        k = self.calls[op]
+        self.calls[op] += 1
+        fac = self.faults.get((op, k))
+        if fac is not None:
+            e = fac()
+            self.raised.append(e)
+            self.ops.append((op + "!", None))
+            raise e
+
+    def write(self, data):
+        if len(data):
+            self._maybe("write")
+        return RecordingFile.write(self, data)
+
+    def flush(self):
+        self._maybe("flush")
+        return RecordingFile.flush(self)
+
+
+def faulty_file_case(seed, i, res):
+    """Every message offered leads to exactly one write of its line, whatever the file's write()/flush() raise and when; the
+    destination keeps working afterwards."""
+    import errno
+    rng = random.Random("%s:C10:ff:%d" % (seed, i))
+    mode = rng.choice(["b", "t"])
+    n = rng.randint(2, 8)
+    facs = [lambda: BlockingIOError(errno.EAGAIN, "write could not complete without blocking", 0), lambda: InterruptedError(errno.EINTR, "interrupted"),
+            lambda: OSError(errno.ENOSPC, "No space left on device"), lambda: ValueError("I/O operation on closed file."), lambda: TimeoutError("timed out")]
+    faults_ = {}
+    for _ in range(rng.choice([1, 1, 2, 3])):
+        faults_[(rng.choice(["flush", "flush", "write"]), rng.randrange(n))] = rng.choice(facs)
+    f = FaultyFile(mode, faults_)
+    dest = FileDestination(file=f)
+    problems = []
+    for k in range(n):
+        m = {"task_uuid": "ff-%d" % i, "task_level": [k + 1], "timestamp": 1.5, "message_type": "ff", "k": k, "text": gen.gen_text(rng, long_ok=False)}
+        try:
+            dest(m)
+        except BaseException as e:
+            if not f.raised or e is not f.raised[-1]:
+                problems.append("offering message %d raised %r, which the file did not raise" % (k, e))
+    lines = {}
+    for op in f.ops:
+        if op[0] == "write" and len(op[1]):
+            try:
+                obj = json.loads(op[1] if isinstance(op[1], str) else bytes(op[1]).decode("utf-8"))
+                lines[obj["k"]] = lines.get(obj["k"], 0) + 1
+            except Exception as e:
+                problems.append("a write carried something that is not one JSON line: %r" % (e,))
+    failed_writes = sum(1 for op in f.ops if op[0] == "write!")
+    for k in range(n):
+        if lines.get(k, 0) > 1:
+            problems.append("message %d was written to the file %d times (the file's flush raised %s)" % (k, lines[k], [type(e).__name__ for e in f.raised]))
+    if sum(lines.values()) + failed_writes != n:
+        problems.append("%d messages offered, %d lines written and %d write calls refused by the file" % (n, sum(lines.values()), failed_writes))
+    res["evals"] += 1
+    c = res["counters"]
+    c["faulty_file_runs"] = c.get("faulty_file_runs", 0) + 1
+    c["file_faults_raised"] = c.get("file_faults_raised", 0) + len(f.raised)
+    if f.raised:
+        res["nontrivial"].append(h(["ff", mode, n, sorted((k[0], k[1]) for k in faults_)]))
+    if problems:
+        res["violations"].append({"msg": problems[0], "mech": None, "detail": {"part": "faultyfile", "case": i, "problems": problems[:5],
+                                                                               "ops": [o[0] for o in f.ops][:40]}})
+
+
 def run_case(spec):
     res = {"evals": 0, "nontrivial": [], "counters": {}, "violations": [], "sample": None}
+    if spec.get("part") == "faultyfile":
+        for i in range(spec["lo"], spec["hi"]):
+            faulty_file_case(spec["seed"], i, res)
+        return res
     pool = {}
     for i in range(spec["lo"], spec["hi"]):
         if i % 50 == 0:
@@ -336,4 +422,6 @@ def finalize(agg, tier):
     c = agg["counters"]
     if c.get("write_calls_checked", 0) < 1000 or c.get("rich_values", 0) < 100:
         return "too few write calls / rich values observed"
+    if c.get("file_faults_raised", 0) < 500:
+        return "too few file faults injected"
     return None
